@@ -267,7 +267,7 @@ def correspond(ctx):
     # real refinement loop: conditions with a symbolic exp and another refinable operator through the real
     # Path.to_smt2 -> solve_end_to_end (first query, refine, second query) -> callback, with yices and z3
     from halmos.__main__ import mk_solver
-    from halmos.sevm import Path, f_div, f_exp, f_mod, f_mul
+    from halmos.sevm import Path, f_div, f_exp, f_mod, f_mul, f_sdiv, f_smod
     from halmos.solve import solve_end_to_end
     import z3 as Z
 
@@ -278,12 +278,22 @@ def correspond(ctx):
 
     e2e_cases = [
         ("exp+mul", [f_exp(hx, hy) == bv(0), f_mul[256](hx, hy) == bv(15), (hx & bv(1)) == bv(1)]),
-        ("exp+div", [f_exp(hx, hy) == bv(7), f_div(hx, hy) == bv(3), Z.ULT(hx, bv(100))]),
+        ("exp+div", [f_exp(hx, hy) == bv(7), f_div(hx, hy) == bv(3), hx == bv(9), hy == bv(3)]),
         ("exp+mod", [f_exp(hx, bv(3)) == bv(5), f_mod[256](hx, hy) == bv(2), hy == bv(5), Z.ULT(hx, bv(1000))]),
         ("mul-only", [f_mul[256](hx, hy) == bv(15), hx == bv(3)]),
         ("div-only", [f_div(hx, hy) == bv(3), hy == bv(0)]),
         ("exp-only", [f_exp(hx, hy) == bv(9)]),
+        # by-zero: the EVM gives 0, SMT-LIB's bvurem/bvsrem give the dividend and bvudiv all-ones; a model with divisor 0 must either
+        # be exact or not be called valid
+        ("mod-zero", [f_mod[256](hx, hy) == hx, hy == bv(0), hx == bv(5)]),
+        ("smod-zero", [f_smod(hx, hy) == hx, hy == bv(0), Z.UGT(hx, bv(2))]),
+        ("sdiv-zero", [f_sdiv(hx, hy) != bv(0), hy == bv(0)]),
+        ("div-zero", [f_div(hx, hy) != bv(0), hy == bv(0)]),
+        ("addmod-zero", [Z.Extract(255, 0, f_mod[264](Z.ZeroExt(8, hx) + Z.ZeroExt(8, bv(1)), Z.ZeroExt(8, hy))) != bv(0), hy == bv(0)]),
+        ("mod-nonzero", [f_mod[256](hx, hy) == bv(2), hy == bv(5), Z.ULT(hx, bv(100))]),
+        ("smod-neg", [f_smod(hx, hy) == bv(2**256 - 1), hx == bv(2**256 - 4), hy == bv(3)]),
     ]
+    from vlib import zeval
     for cname, conds in e2e_cases:
         for sname, scmd in (("yices", f"{yices} --smt2-model-format --bvconst-in-decimal"), ("z3", z3bin)):
             eargs = eng.args(solver_command=scmd, solver_timeout_assertion=8.0)
@@ -317,6 +327,19 @@ def correspond(ctx):
                                   {"kind": "e2e", "case": cname, "solver": sname, "stdout": stdout})
                 if "f_evm_" not in stdout and where != "valid":
                     ctx.violation("label:clean-model-not-marked-valid", f"{cname} ({sname}): {where}: {stdout[:200]!r}", {"kind": "e2e", "case": cname})
+                # replay: a counterexample called valid must satisfy the path conditions under the exact EVM meaning of the abstractions
+                if where == "valid":
+                    env = {v.full_name: v.value for v in out.model.model.values()}
+                    try:
+                        holds = all(zeval.Evaluator(env, default_uf=K.prf("c04")).ev(c) for c in p.conditions)
+                    except zeval.Unknown:
+                        holds = None
+                    ctx.count(f"e2e-replay:{cname}:{holds}")
+                    if holds is False:
+                        ctx.violation(f"valid-counterexample-does-not-satisfy-path[{cname}]",
+                                      f"{cname} ({sname}): model {({k: hex(v) for k, v in env.items()})} is labelled valid but the path conditions "
+                                      f"{[str(c)[:70] for c in p.conditions]} are false under the exact EVM operations (by-zero = 0)",
+                                      {"kind": "e2e", "case": cname, "solver": sname, "model": {k: str(v) for k, v in env.items()}})
                 if cname in ("mul-only", "div-only") and not was_refined:
                     ctx.violation("refine:loop-did-not-refine", f"{cname} ({sname})", {"kind": "e2e", "case": cname})
                 # the refined answer goes through the Lean model too
